@@ -76,6 +76,7 @@ pub fn add_counters(rep: &mut Rep, w: &World) {
     rep.add("op_completions_checked", c.completions_checked as i64);
     rep.add("op_pending_checked", c.pending_checked as i64);
     rep.add("inbound_publishes", c.inbound_publishes as i64);
+    rep.add("inbound_publishes_with_varied_size", c.sized_inbound as i64);
     rep.add("inbound_acks_matched", c.inbound_acks_matched as i64);
     rep.add("stream_items_checked", c.stream_items_checked as i64);
     rep.add("quota_refusals_seen", c.quota_refusals as i64);
@@ -143,6 +144,8 @@ pub fn walk_world(rep: &mut Rep, name: &str, walks: u64, steps: usize, mk: &dyn 
         if w.sim.writer.0.borrow().plan == crate::sim::WritePlan::All {
             apply_transport_variant(&mut w, k);
         }
+        // every second walk varies the size of inbound messages across the client's buffer steps
+        w.size_mix = k % 2 == 1;
         // every third walk starts with the identifier counters at a boundary (hook H2); nothing has been allocated yet
         if k % 3 == 1 && w.m.is_empty() {
             let pids = [200u16, 250, 255, 256, 300, 0x7ff0, 0x7fff, 0xfff0, 65530, 65535];
